@@ -1413,6 +1413,15 @@ def c14_programs(tier, sd):
         [E(["<", ["ps", a, 7, 4], ["ulit", 3, 4]])],
         [],
     ]
+    # part-selects that cover every bit of a signed field are still unsigned quantities; in-ranges with a random field as one end
+    for op in rel:
+        stmts.append([E([op, ["ps", c, 7, 0], lit(100)])])
+        stmts.append([E([op, ["ps", c, 7, 0], n1])])
+        stmts.append([E([op, ["ps", c, 6, 0], lit(50)])])
+    stmts += [
+        [E(["in", a, [["rng", lit(5), b]]])], [E(["in", a, [["rng", b, lit(250)]]])], [E(["in", a, [["rng", lit(5), b], lit(1)]]), E([">", b, lit(3)])],
+        [E(["in", a, [["rng", n1, b]]])], [E(["notin", a, [["rng", lit(5), b]]])], [E(["in", c, [["rng", ["slit", -100, 8], F("s1")], ["rng", lit(5), ["ps", b, 3, 0]]]])],
+    ]
     # statements that follow a nested conditional inside a conditional body stay conditional
     inner = [["implies", ["==", b, lit(1)], [E(["==", F("w"), lit(2)])]], ["if", [[["==", b, lit(1)], [E(["==", F("w"), lit(2)])]]], None],
              ["if", [[["==", b, lit(1)], [E(["==", F("w"), lit(2)])]]], [E(["<", F("w"), lit(9)])]]]
